@@ -11,6 +11,7 @@ Exit codes of `check`: 0 property held on every obligation, 1 violation (VIOLATI
 """
 import argparse
 import concurrent.futures
+import gzip
 import hashlib
 import json
 import os
@@ -347,11 +348,11 @@ def run_unit(u, b, keep=None, trace=False, use_cache=True):
                 cb += ['--unwindset', '%s:%d' % (nm, max(nt, 3))]
         res['checker_cmd'] = ' '.join(gi[:-2]) + ' <unit.gb> <out.gb> && ' + ' '.join(['cbmc', '<out.gb>'] + cb[2:])
         key = hashlib.sha256(open(igb, 'rb').read() + ' '.join(cb[2:]).encode()).hexdigest()
-        cpath = os.path.join(CACHE, key + '.json')
+        cpath = os.path.join(CACHE, key + '.json.gz')   # compressed: one unit's JSON result can exceed 200 MB
         data = None
         if use_cache and not trace and os.path.exists(cpath):
             try:
-                data = json.load(open(cpath))
+                data = json.load(gzip.open(cpath, 'rt'))
                 res['cached'] = True
             except Exception:
                 data = None
@@ -374,7 +375,8 @@ def run_unit(u, b, keep=None, trace=False, use_cache=True):
             if not trace and not bad:     # only definite verdicts are cached
                 os.makedirs(CACHE, exist_ok=True)
                 tmp = cpath + '.%d.tmp' % os.getpid()
-                json.dump({'data': data, 'solver_s': dt}, open(tmp, 'w'))
+                with gzip.open(tmp, 'wt', compresslevel=3) as fh:
+                    json.dump({'data': data, 'solver_s': dt}, fh)
                 os.replace(tmp, cpath)
             data = {'data': data, 'solver_s': dt}
         res['solver_s'] = data['solver_s']
